@@ -84,7 +84,7 @@ EXACT_UNDER_FAULT = {"name", "status", "username", "create_time", "nice_get", "u
                      "cpu_times", "memory_info", "memory_full_info", "memory_percent", "memory_percent_uss", "ppid", "cmdline",
                      "cwd", "oneshot_multi"}
 COLLECTORS = {"threads", "open_files", "net_connections_all", "net_connections_inet"}
-NON_RAISING_AFTER_GONE = {"is_running", "wait0", "children", "children_rec", "repr", "process_iter_attrs"}
+NON_RAISING_AFTER_GONE = {"is_running", "wait0", "repr", "process_iter_attrs"}
 TREE_OPS = {"children", "children_rec", "parent", "parents", "process_iter_attrs", "as_dict"}
 
 _env = {}
@@ -234,7 +234,11 @@ def run_op(opname, fixture, plan, do_post=False):
             t.remove(pid)        # the teardown window is over by the time a *later* query is made
         if do_post and pid not in t.procs:
             post = []
-            for name, fn in env["ops"].items():
+            # every later query, in an order that differs from plan to plan: what an earlier query learnt (and latched on the
+            # object) must not be what makes a later one answer correctly
+            later = list(env["ops"].items())
+            k0 = int(harness.chash([opname, [list(x) for x in plan]])[-4:], 16) % len(later)
+            for name, fn in later[k0:] + later[:k0]:
                 if fn is None or name in ("oneshot_multi",):
                     continue
                 n0 = len(vk.log)
